@@ -532,7 +532,7 @@ class PPG3204():
         for ch, ord in zip(CHs, order):
             if ord not in self.PRBS_ORDERS:
                 old_ord = ord
-                ord = nearest(self.PRBS_ORDERS, int(ord)) 
+                ord = nearest(self.PRBS_ORDERS, int(np.clip(ord, self.PRBS_ORDERS[0], self.PRBS_ORDERS[-1]))) # clip first: int(inf) raises, and beyond int64 all distances tie
                 msg = f'PRBS order {old_ord} in CH:{ch} is not correct, it will be set to nearest value {ord}'
                 warnings.warn(msg)
             self._query(f':DIG{ch}:PATT:PLEN {ord}')
